@@ -403,6 +403,16 @@ func checkBody(body string) {
 			}
 			_ = i
 		}
+		// a slot in a code position that stands inside an open `${ … }` of a template literal
+		r = body
+		for k := range ctxs {
+			i := strings.Index(r, slot)
+			before := r[:i]
+			if j := strings.LastIndex(before, "${"); ctxs[k] == jslit.Code && j >= 0 && !strings.Contains(before[j:], "}") {
+				key = "script-go-expression-inside-template-literal-substitution"
+			}
+			r = r[i+len(slot):]
+		}
 		run.Violation(key, fmt.Sprintf("<script>%s</script> with v=%s renders %s: %s", body, vlib.Quote(v), vlib.Quote(out), what), map[string]any{"body": body, "v": v, "rendered": out, "problem": what})
 	}
 	ngo := 0
@@ -753,7 +763,9 @@ func main() {
 		"`" + slot + slot + "`", "`" + slot + "{a}`", "'" + slot + slot + "'", "\"" + slot + "/script>\"",
 		"`u \\`" + slot + "\\` n`", "'u \\'" + slot + "\\' n'", "\"u \\\"" + slot + "\\\" n\"", "`\\`\\`" + slot + "`",
 		// line continuations inside string literals (LF and CRLF files), CRLF as a plain line ending
-		"'a \\\n" + slot + "'", "'a \\\r\n" + slot + "'", "\"a \\\r\nb\"", "\r\n"}
+		"'a \\\n" + slot + "'", "'a \\\r\n" + slot + "'", "\"a \\\r\nb\"", "\r\n",
+		// a Go value inside the substitution of a template literal: a code position inside a literal
+		"`${" + slot + "}`", "`x ${ " + slot + " } y`", "`${a}${ f(" + slot + ") }`"}
 	bodyLen := run.Pick(3, 4)
 	vlib.SeqsParallel(btok, bodyLen, runtime.NumCPU(), func(_ int, body string) {
 		if !strings.Contains(body, slot) {
